@@ -135,6 +135,20 @@ theorem C09_tie_opt_order :
     callSeqOptOut.filter (· ∈ ["IsOperator", "IsAVS", "IsActive", "IsOperatorFrozen", "DeleteOperatorUSDValue", "HandleOptedInfo"]) =
       ["IsOperator", "IsAVS", "IsActive", "IsOperatorFrozen", "DeleteOperatorUSDValue", "HandleOptedInfo"] := by decide
 
+/-- CreateAVSTask: GetTaskID (which stores the bumped counter) comes after every refusing check and
+directly before SetTaskInfo; the precompile emits its event after the keeper call -/
+theorem C09_tie_createTask_order :
+    callSeqCreateAVSTask.filter (· ∈ ["GetAVSInfoByTaskAddress", "Contains", "GetAVSUSDValue", "GetEpochInfo", "IsExistTask",
+        "GetOptInOperators", "GetTaskID", "SetTaskInfo"]) =
+      ["GetAVSInfoByTaskAddress", "Contains", "GetAVSUSDValue", "GetEpochInfo", "IsExistTask", "GetOptInOperators",
+       "GetTaskID", "SetTaskInfo"] ∧
+    callSeqPrecompileCreateAVSTask.filter (· ∈ ["GetTaskParamsFromInputs", "CreateAVSTask", "EmitCreateAVSTaskEvent"]) =
+      ["GetTaskParamsFromInputs", "CreateAVSTask", "EmitCreateAVSTaskEvent"] ∧
+    precompileCreateTask.map stepName =
+      ["GetTaskParamsFromInputs", "GetAVSInfoByTaskAddress", "owner contains caller", "GetAVSUSDValue>0", "GetEpochInfo",
+       "IsExistTask", "GetOptInOperators", "GetTaskID(Set latest)", "IsHexAddress(task)", "Set(taskInfo)",
+       "EmitCreateAVSTaskEvent"] := by decide
+
 /-- the msg handlers open their cache context before calling the keeper -/
 theorem C09_tie_msg_order :
     callSeqMsgOptIntoAVS.filter (· ∈ ["CacheContext", "OptIn", "OptInWithConsKey"]) = ["CacheContext", "OptIn", "OptInWithConsKey"] ∧
